@@ -9,17 +9,16 @@
 //
 // Lowered build: the generated parser is #included into this translation unit (the engine runs bison on the
 // cppBison.yxx of the tree under test into the scratch 'gen' directory, which is on the include path) with the initial
-// stack depth YYINITDEPTH lowered from 200 to 24 (the three parser stacks are arrays of fat C++ objects whose
+// stack depth YYINITDEPTH lowered from 200 to 10 (the three parser stacks are arrays of fat C++ objects whose
 // constructors/destructors run for every slot; depth never exceeds 8 here and an overflow would end in the cut
-// CPPPreprocessor::error -> assertion failure).  Native replay: the separately compiled real cppBison.cxx is linked.
+// CPPPreprocessor::error -> the 'accepted' assertion fails and, native replay using depth 200, is reported as an
+// encoding error, never as success).  Native replay: the separately compiled real cppBison.cxx is linked.
 #include "verif.h"
 #include "cppExpression.h"
 #include "cppPreprocessor.h"
 #include "cppToken.h"
 #ifndef VERIF_NATIVE
-#ifndef YYINITDEPTH
-#define YYINITDEPTH 24
-#endif
+#define YYINITDEPTH 10
 #include "cppBison.cxx"
 #else
 #include "cppBison.h"
@@ -84,17 +83,8 @@ static Ref ref_bin(int op, Ref a, Ref b) {
   return r;
 }
 
-#ifndef VMAX
-#define VMAX 2147483647
-#endif
 #ifndef MDMAX
-#define MDMAX 15
-#endif
-#ifndef I1
-#define I1 3
-#endif
-#ifndef I2
-#define I2 5
+#define MDMAX 63
 #endif
 
 static CPPPreprocessor *fake_pp() {
@@ -103,22 +93,31 @@ static CPPPreprocessor *fake_pp() {
   return (CPPPreprocessor *)operator new(sizeof(CPPPreprocessor));
 }
 
-static __attribute__((noinline)) void one_pair(CPPPreprocessor *pp, int i1, int i2, Ref a, Ref b, Ref c) {
+static bool is_muldiv(int op) { return op == '*' || op == '/' || op == '%'; }
+
+// one expression  a OP1 b OP2 c  with fresh symbolic literal values
+static __attribute__((noinline)) void one_pair(CPPPreprocessor *pp, int i1, int i2) {
   int op1 = OPS[i1], op2 = OPS[i2];
+  int va = nondet_int(), vb = nondet_int(), vc = nondet_int();
+  // integer literals are non-negative; symbolic-by-symbolic * / % is SAT-hard at full width: small operands there
+  int vmax = (is_muldiv(op1) || is_muldiv(op2)) ? MDMAX : 2147483647;
+  ASSUME(va >= 0 && va <= vmax && vb >= 0 && vb <= vmax && vc >= 0 && vc <= vmax);
+  Ref a, b, c;
+  a.defined = b.defined = c.defined = true;
+  a.v = va; b.v = vb; c.v = vc;
   tok_reset();
   tok_add(START_CONST_EXPR);
-  tok_add(INTEGER, (unsigned long long)a.v);
+  tok_add(INTEGER, (unsigned long long)va);
   tok_add(op1);
-  tok_add(INTEGER, (unsigned long long)b.v);
+  tok_add(INTEGER, (unsigned long long)vb);
   tok_add(op2);
-  tok_add(INTEGER, (unsigned long long)c.v);
+  tok_add(INTEGER, (unsigned long long)vc);
   CPPExpression *e = parse_const_expr(pp, nullptr, nullptr);
   ASSERT(parse_errors == 0 && e != nullptr, "C07 a OP1 b OP2 c is accepted by the parser");
   if (e == nullptr) return;
   // C++: OP2 binds tighter than OP1 only when its level is strictly higher (equal levels: left-associative)
   Ref want = (LEVEL[i2] > LEVEL[i1]) ? ref_bin(op1, a, ref_bin(op2, b, c)) : ref_bin(op2, ref_bin(op1, a, b), c);
-  // && and || short-circuit: an undefined right operand does not matter when the left decides; keep it simple and
-  // claim only fully defined expressions
+  // (&& and || short-circuit; only fully defined expressions are claimed)
   CPPExpression::Result r = e->evaluate();
   if (want.defined) {
     ASSERT(r._type == CPPExpression::RT_integer, "C07 parsed integer expression evaluates to an integer");
@@ -127,38 +126,42 @@ static __attribute__((noinline)) void one_pair(CPPPreprocessor *pp, int i1, int 
   }
 }
 
-extern "C" void harness_c07_parse_pair() {
-  Ref a, b, c;
-  int va = nondet_int(), vb = nondet_int(), vc = nondet_int();
-  ASSUME(va >= 0 && va <= VMAX && vb >= 0 && vb <= VMAX && vc >= 0 && vc <= VMAX);
-#ifdef CONC
-  va = 1; vb = 2; vc = 1;
+// PAIRSET 0: OP1 = OPS[ROW], OP2 ranges over the operators with index % NPARTS == PART (the row entries cover all 324
+//            ordered pairs).
+// PAIRSET 1: the subset that pins the table down level by level: one representative per level (the one whose
+//            grouping is observable in the value); for every adjacent pair of levels the expression with the looser
+//            operator first (a - b / c), and the same-level pair (a - b - c) for the levels whose operators are not
+//            associative in value; residue PART of NPARTS.
+#ifndef PAIRSET
+#define PAIRSET 1
 #endif
-  a.defined = b.defined = c.defined = true;
-  a.v = va; b.v = vb; c.v = vc;
-  CPPPreprocessor *pp = fake_pp();
-  one_pair(pp, I1, I2, a, b, c);
-#ifdef TWO
-  one_pair(pp, I2, I1, a, b, c);
+#ifndef ROW
+#define ROW 0
 #endif
-  WITNESS();
-}
+#ifndef NPARTS
+#define NPARTS 1
+#endif
+#ifndef PART
+#define PART 0
+#endif
+//                         /  -  >> <  == &   ^   |   &&  ||      (indices into OPS, levels 10 .. 1)
+static const int REP[] = {1, 4, 6, 7, 11, 13, 14, 15, 16, 17};
+#define NREP 10
 
-extern "C" void harness_c07_parse_dbg() {
+extern "C" void harness_c07_parse_pairs() {
   CPPPreprocessor *pp = fake_pp();
-  tok_reset();
-  tok_add(START_CONST_EXPR);
-  tok_add(INTEGER, 1);
-  tok_add(LSHIFT);
-  tok_add(INTEGER, 2);
-  tok_add('+');
-  tok_add(INTEGER, 1);
-  CPPExpression *e = parse_const_expr(pp, nullptr, nullptr);
-  ASSERT(e != nullptr, "C07 dbg nonnull");
-  ASSERT(e->_type == CPPExpression::T_binary_operation, "C07 dbg type");
-  ASSERT(e->_u._op._operator == LSHIFT, "C07 dbg op");
-  ASSERT(e->_u._op._op1->_type == CPPExpression::T_integer, "C07 dbg op1 type");
-  ASSERT(e->_u._op._op2->_type == CPPExpression::T_binary_operation, "C07 dbg op2 type");
-  ASSERT(e->_u._op._op2->_u._op._op2->_type == CPPExpression::T_integer, "C07 dbg op22 type");
+  int done = 0;
+#if PAIRSET == 0
+  for (int i2 = 0; i2 < NOPS; i2++) { if (i2 % NPARTS == PART) { one_pair(pp, ROW, i2); done++; } }
+#else
+  int k = 0;
+  for (int l = 0; l < NREP; l++) {
+    if (l + 1 < NREP) {
+      if (k++ % NPARTS == PART) { one_pair(pp, REP[l + 1], REP[l]); done++; }   // looser first:   a - b / c
+    }
+    if (l < 5) { if (k++ % NPARTS == PART) { one_pair(pp, REP[l], REP[l]); done++; } }   // a - b - c
+  }
+#endif
+  ASSERT(done > 0, "C07 harness parsed at least one expression");
   WITNESS();
 }
